@@ -48,7 +48,7 @@ class Ctx:
         env['PYTHONPATH'] = VERIF
         env['VF_REPO'] = REPO
         env.pop('CNES_PANDORA_VERIF', None)
-        if job.get('mode') == 'sym':
+        if job.get('mode') == 'sym' or job.get('nojit'):
             env['NUMBA_DISABLE_JIT'] = '1'
         else:
             env.pop('NUMBA_DISABLE_JIT', None)
@@ -137,7 +137,7 @@ class Ctx:
         """replay counterexamples on the real (uninstrumented, JIT) code; classify"""
         if not cexs:
             return
-        jobs = [{'mod': replay_mod, 'fn': replay_fn, 'mode': 'plain', 'args': {'cex': cx}} for cx in cexs]
+        jobs = [{'mod': replay_mod, 'fn': replay_fn, 'mode': 'plain', 'nojit': replay_mod.endswith('e3jobs'), 'args': {'cex': cx}} for cx in cexs]
         for r in self.run_jobs(jobs, timeout, workers=min(8, NCPU)):
             cx = r['job']['args']['cex']
             name = '%s/%s' % (cx.get('harness'), cx.get('name'))
